@@ -54,7 +54,9 @@ def requests(tier, seed):
                     # the same request after a history on this connection: a service from the same key was run and removed
                     # (a restart), or Tor refused the first attempt to create one
                     for h in ("removed", "refused"):
-                        out.append(dict(out[-1], key=dict(key), clients=[], ports=[dict(p) for p in ports], history=h, delfail=False))
+                        for via_tor in (False, True):
+                            out.append(dict(out[-1], key=dict(key), clients=[], ports=[dict(p) for p in ports], history=h, delfail=False,
+                                            via_tor=via_tor))
                 if auth_clients:
                     # the same request, made with an auth object that has already served another service
                     out.append(dict(out[-1], key=dict(key), clients=[dict(c) for c in auth_clients],
